@@ -66,9 +66,9 @@ def replay(ctx, recs, stats):
         for tuples in variants:
             try:
                 objs = sl.build(els, tuples, peek)
-            except Exception as exc:   # noqa
-                ctx.violation("construct:raised:%s" % exc_name(exc),
-                              {"tree": sl.sig(els), "tuples": tuples, "exception": repr(exc)})
+            except sl.ConstructFailed as cf:      # only what a lena constructor raised
+                ctx.violation("construct:raised:%s" % exc_name(cf.exc),
+                              {"tree": sl.sig(els), "tuples": tuples, "exception": repr(cf.exc)})
                 continue
             obs, rt, changed = sl.observe(els, objs)
             _clean_cwd()
@@ -317,12 +317,18 @@ def c2s(ctx, n, max_tok, stats):
             peek = nodes[(j - n) % len(nodes)]
         try:
             objs = sl.build(els, tuples, peek)
-        except Exception as exc:   # noqa
-            ctx.violation("construct:raised:%s" % exc_name(exc),
-                          {"tree": sl.sig(els), "tuples": tuples, "exception": repr(exc)})
+        except sl.ConstructFailed as cf:          # only what a lena constructor raised
+            ctx.violation("construct:raised:%s" % exc_name(cf.exc),
+                          {"tree": sl.sig(els), "tuples": tuples, "exception": repr(cf.exc)})
             continue
         obs, rt, changed = sl.observe(els, objs)
         _clean_cwd()
+        raised = [(i, o) for i, o in enumerate(obs, 1) if o and o.get("raised")]
+        if raised:
+            i, o = raised[0]
+            ctx.violation("c2s:%s:observation-raised-%s" % (els[i - 1]["k"], o["raised"]),
+                          {"tree": sl.sig(els), "element": i, "message": o.get("msg")})
+            continue
         trace.append(sl.record(els, obs, rt, stable=not changed))
     # validate; a rejected record is localised (which observation) and validation goes on
     # behind it (at most 3 / 8 times, each rejection is a violation)
@@ -503,6 +509,7 @@ def _run(ctx):
             sorted(want - kinds_seen), stats["peeked"], sorted(stats["trees_by_family"])))
     stats["policies_matched"] = dict(stats["policies_matched"])
     stats["trees_by_family"] = dict(stats["trees_by_family"])
+    stats["coverage_downgraded"] = dict(sl.DOWNGRADED)
     ctx.extra["c13"] = stats
     return ctx.finish(
         rule="S2C: every finished tree of every family of the bounded machine (quick: A4 = <= 4 tokens over 11 "
